@@ -103,14 +103,21 @@ def cache_dir():
     return d
 
 
-def prune_cache(keep=2):
+def prune_cache(keep=3, min_age_s=7200):
+    """drop library/harness builds of older trees: everything but the `keep` most recently
+    used ones, and never one used in the last two hours (several checks may run at once)"""
     if not os.path.isdir(CACHE):
         return
+    try:
+        os.utime(cache_dir(), None)
+    except OSError:
+        pass
     ds = [os.path.join(CACHE, d) for d in os.listdir(CACHE)
           if os.path.isdir(os.path.join(CACHE, d)) and re.fullmatch(r"[0-9a-f]{16}", d)]
     ds.sort(key=lambda p: os.path.getmtime(p), reverse=True)
+    now = time.time()
     for d in ds[keep:]:
-        if os.path.basename(d) != tree_hash():
+        if os.path.basename(d) != tree_hash() and now - os.path.getmtime(d) > min_age_s:
             shutil.rmtree(d, ignore_errors=True)
 
 
@@ -584,7 +591,44 @@ def run_cases(exe, cases, workdir, tag, timeout=900, env=None, args=()):
     if len(lines) < len(cases):
         marker = "HANG" if rc == -9999 else ("MEMFAULT" if rc in (97, 96, -11, -6, -7, -8) or "Sanitizer" in err else "DIED(%d)" % rc)
         lines = lines + [marker] + ["NOTRUN"] * (len(cases) - len(lines) - 1)
-    return lines, err[-3000:]
+    return lines, err[:6000] + err[-1500:]
+
+
+def run_cases_resilient(exe, cases, workdir, tag, timeout=900, env=None, args=(), max_restarts=200):
+    """like run_cases, but when the process dies on a case (sanitizer report, signal, watchdog)
+    that case is marked and the remaining cases are run in a fresh process"""
+    out, errs, start, restarts = [], [], 0, 0
+    while start < len(cases):
+        o, err = run_cases(exe, cases[start:], workdir, tag, timeout=timeout, env=env, args=args)
+        bad = None
+        for k, l in enumerate(o):
+            if l == "NOTRUN":
+                break
+            out.append(l)
+            if l == "MEMFAULT" or l.endswith("HANG") or l.startswith("DIED"):
+                bad = k
+                errs.append((start + k, err))
+                break
+        if bad is None:
+            if len(out) < len(cases) and o and o[-1] == "NOTRUN":
+                pass
+            break
+        # a HANG line printed by the watchdog replaces the case's own output line
+        start = start + bad + 1
+        restarts += 1
+        if restarts > max_restarts:
+            out += ["NOTRUN"] * (len(cases) - len(out))
+            break
+    if len(out) < len(cases):
+        out += ["NOTRUN"] * (len(cases) - len(out))
+    return out, errs
+
+
+def san_summary(err):
+    """the informative lines of a sanitizer report"""
+    keep = [l.strip() for l in err.splitlines()
+            if "ERROR:" in l or "SUMMARY:" in l or "runtime error" in l or re.match(r"\s*#[0-5] ", l)]
+    return " | ".join(keep[:9])[:900]
 
 
 def split_model(line):
